@@ -445,14 +445,15 @@ def rule_r4(ctx):
     model_names = {n.targets[0].id for n in own_nodes(load.node) if isinstance(n, ast.Assign) and isinstance(n.targets[0], ast.Name)
                    and isinstance(n.value, ast.Call) and (dotted_of(n.value.func) or "").endswith("deserialize_model")}
     ctx.require(bool(model_names), "load(): deserialized model not found")
-    main = [c for c in calls if isinstance(c.args[0], ast.Attribute) and c.args[0].attr == "graph" and norm(c.args[0].value) in model_names]
+    arg0 = {id(c): _resolve_copy(c, c.args[0]) for c in calls}
+    main = [c for c in calls if isinstance(arg0[id(c)], ast.Attribute) and arg0[id(c)].attr == "graph" and norm(arg0[id(c)].value) in model_names]
     ctx.check("R4", "load(): set_base_dir on the model's main graph", bool(main), load, load.node,
               "the main graph's external tensors keep base_dir '' (no containment check)", how="call with <model>.graph", nontrivial=False)
     fn_cov = []
     for c in calls:
         var, it = _loop_var_of(load, c)
         if var and it is not None and any(isinstance(x, ast.Attribute) and x.attr == "functions" and norm(x.value) in model_names for x in ast.walk(it)) \
-                and any(isinstance(x, ast.Name) and x.id == var for x in ast.walk(c.args[0])):
+                and any(isinstance(x, ast.Name) and x.id == var for x in ast.walk(arg0[id(c)])):
             fn_cov.append(c)
     ctx.check("R4", "load(): set_base_dir on every function of the model", bool(fn_cov), load, load.node,
               "external tensors held by node attributes inside the model's functions keep base_dir '' after load(): "
@@ -505,6 +506,47 @@ def rule_r4(ctx):
                       how="branch reads <subgraph>.initializers or recurses", construct=f"{kind} initializers not reached")
 
 
+def _resolve_copy(call, e):
+    """A name bound by the statement just before the call's statement (same block) stands for the bound expression: what
+    `f(g.graph)` reads as once a generator helper `for x in gen(): f(x)` is expanded into `x = g.graph; f(x)`."""
+    if not isinstance(e, ast.Name):
+        return e
+    st = call
+    while st is not None and not isinstance(st, ast.stmt):
+        st = getattr(st, "_parent", None)
+    blk = getattr(st, "_parent", None)
+    for fld in ("body", "orelse", "finalbody"):
+        b = getattr(blk, fld, None)
+        if isinstance(b, list) and st in b:
+            for prev in reversed(b[: b.index(st)]):
+                if isinstance(prev, ast.Assign) and len(prev.targets) == 1 and isinstance(prev.targets[0], ast.Name) and prev.targets[0].id == e.id:
+                    return prev.value
+                if any(isinstance(x, ast.Name) and x.id == e.id and isinstance(x.ctx, ast.Store) for x in ast.walk(prev)):
+                    return e
+    return e
+
+
+def _plain_inequality(t, f, depth=0) -> bool:
+    """`a != b` over the raw old and new values (os.fspath at most), written directly, as `not (a == b)`, or through a
+    local bound once to such a comparison."""
+    if isinstance(t, ast.Name) and depth < 2:
+        binds = [n for n in own_nodes(f.node) if (isinstance(n, ast.Assign) and any(isinstance(x, ast.Name) and x.id == t.id for x in n.targets))
+                 or (isinstance(n, (ast.AnnAssign, ast.AugAssign, ast.NamedExpr)) and isinstance(n.target, ast.Name) and n.target.id == t.id)]
+        if len(binds) == 1 and isinstance(binds[0], (ast.Assign, ast.AnnAssign)) and binds[0].value is not None and t.id not in f.params:
+            return _plain_inequality(binds[0].value, f, depth + 1)
+        return False
+    neg = False
+    if isinstance(t, ast.UnaryOp) and isinstance(t.op, ast.Not):
+        neg, t = True, t.operand
+    if not (isinstance(t, ast.Compare) and len(t.ops) == 1):
+        return False
+    if not isinstance(t.ops[0], (ast.Eq, ast.Is) if neg else (ast.NotEq, ast.IsNot)):
+        return False
+    return all(isinstance(sd, (ast.Name, ast.Attribute)) or (isinstance(sd, ast.Call) and dotted_of(sd.func) == "os.fspath" and len(sd.args) == 1
+                                                             and isinstance(sd.args[0], (ast.Name, ast.Attribute)))
+               for sd in [t.left, t.comparators[0]])
+
+
 def rule_r5(ctx):
     et = ctx.repo.cls(ET)
     pg = et.props.get("path", {}).get("get")
@@ -532,12 +574,7 @@ def rule_r5(ctx):
                             p_ = getattr(x.stmt, "_parent", None)
                             while p_ is not None and p_ is not f.node:
                                 if isinstance(p_, ast.If):
-                                    t = p_.test
-                                    plain = isinstance(t, ast.Compare) and len(t.ops) == 1 and isinstance(t.ops[0], (ast.NotEq, ast.IsNot)) and all(
-                                        isinstance(sd, (ast.Name, ast.Attribute)) or (isinstance(sd, ast.Call) and dotted_of(sd.func) == "os.fspath" and len(sd.args) == 1
-                                                                                     and isinstance(sd.args[0], (ast.Name, ast.Attribute)))
-                                        for sd in [t.left, t.comparators[0]])
-                                    if not plain:
+                                    if not _plain_inequality(p_.test, f):
                                         ok = False
                                 p_ = getattr(p_, "_parent", None)
                 ctx.check("R5", f"{f.local}: storing {w.field} drops the mapped data", ok, f, w.stmt,
